@@ -99,8 +99,29 @@ func genScenario() *netctl.Scenario {
 			// "outage0" = t/0 is leaderless for the whole execution (Metadata reports
 			// LEADER_NOT_AVAILABLE, leader -1): records for it stay buffered until the
 			// delivery timeout, or until Close / AbortBufferedRecords fails them.
-			env := x.ChooseOf("env", []string{"move", "outage0"})
+			// "denied-late" = the topic loads normally, then every Metadata answer
+			// reports it with TOPIC_AUTHORIZATION_FAILED (an ACL revoked): records
+			// produced in that state fail at once and must leave no trace in the
+			// buffered gauges. T1 first warms up (ProduceSync t/1, Produce u/0,
+			// 1.5 s of think time) so that the chosen script runs in that state.
+			env := x.ChooseOf("env", []string{"move", "outage0", "denied-late"})
 			outageOver.Store(false)
+			deniedFrom.Store(false)
+			if env == 2 {
+				x.RespRewrite = func(_ *netctl.Conn, key, _ int16, resp kmsg.Response) kmsg.Response {
+					m, ok := resp.(*kmsg.MetadataResponse)
+					if !ok || key != 3 || outageOver.Load() || !deniedFrom.Load() {
+						return nil
+					}
+					for i := range m.Topics {
+						if m.Topics[i].Topic != nil && *m.Topics[i].Topic == "t" {
+							m.Topics[i].ErrorCode = 29 // TOPIC_AUTHORIZATION_FAILED
+							m.Topics[i].Partitions = nil
+						}
+					}
+					return m
+				}
+			}
 			if env == 1 {
 				x.RespRewrite = func(_ *netctl.Conn, key, _ int16, resp kmsg.Response) kmsg.Response {
 					m, ok := resp.(*kmsg.MetadataResponse)
@@ -187,6 +208,17 @@ func genScenario() *netctl.Scenario {
 				}
 			})
 			x.Thread("T1", func(t *netctl.Thread) {
+				if env == 2 {
+					t.Step("warmup-producesync-t1")
+					r := rec("t", 1)
+					if res := st.cl.ProduceSync(context.Background(), r); len(res) == 1 {
+						st.led.Promise()(r, res[0].Err)
+					}
+					deniedFrom.Store(true)
+					t.Step("warmup-produce-u0") // an unknown topic: forces metadata refreshes
+					st.cl.Produce(context.Background(), rec("u", 0), st.led.Promise())
+					time.Sleep(1500 * time.Millisecond)
+				}
 				close(gates[0])
 				for i, op := range t1 {
 					switch op {
@@ -245,6 +277,9 @@ func genScenario() *netctl.Scenario {
 
 // outageOver ends the env=outage0 rewrite (one execution at a time per process).
 var outageOver atomic.Bool
+
+// deniedFrom starts the env=denied-late rewrite (set by T1 after its warm-up).
+var deniedFrom atomic.Bool
 
 // GenPlans returns the generated family: quick = every (cfg, t1 of the five
 // representative scripts, t2, gate) on the default schedule; thorough = all
